@@ -537,7 +537,7 @@ class Pipeline:
                 if any(k in self.output_to_func for k in flat_scope_kwargs)
                 else compute_cache_key(
                     func.output_name,
-                    self._func_defaults(func) | flat_scope_kwargs | func._bound,
+                    self._func_defaults(func) | func._bound | flat_scope_kwargs,
                     root_args,
                 )
             )
